@@ -1,4 +1,11 @@
-/- Loop lemmas and model-side fold lemmas for Proofs/SrcTablesSpec.lean. -/
+/-
+  Development behind Proofs/SrcTablesSpec.lean: loop lemmas (`forStep` / `whileSt` with an invariant, in the
+  `Ret o v Q` form "o returns v without panicking and Q v holds"), model-side fold lemmas, and the three main
+  results `exp_log_src`, `skew_src`, `cantor_basis_eq`.
+  NOTE for maintenance: closed 65536-entry arrays (`Array.replicate 65536 0`, …) are `generalize`d to variables
+  before any rewriting, and `bind_some'` (not the `rfl`-lemma `Option.bind_some`) is used on the long bind chains —
+  otherwise the kernel tries to decide definitional equalities by evaluating the loops (infeasible / exponential).
+-/
 import RSVerif.Gen.SrcUtils
 import RSVerif.Model.Engine
 import RSVerif.Model.TableInit
@@ -62,15 +69,47 @@ theorem range'_fold {σ : Type} (g : Nat → σ → σ) (lo n : Nat) (s : σ) :
     (List.range' lo n).foldl (fun s i => g i s) s = (List.range n).foldl (fun s d => g (lo + d) s) s := by
   rw [List.range'_eq_map_range, List.foldl_map]
 
-/-- bind form, continuation gets the fold and the final invariant -/
-theorem forStep_bind' {σ τ : Type} (P : Nat → σ → Prop) (g : Nat → σ → σ) {lo hi : Nat} {f : Nat → σ → Option σ}
-    {s : σ} {k : σ → Option τ} {R : Option τ} (hlo : lo ≤ hi) (hP : P lo s)
-    (hstep : ∀ i s, lo ≤ i → i < hi → P i s → f i s = some (g i s) ∧ P (i + 1) (g i s))
+/-- `Option.bind_some` as a NON-definitional rewrite rule: `simp` must produce an explicit proof term, otherwise the
+    kernel compares `(some a).bind k` with `k a` by unfolding, which is exponential on long bind chains -/
+theorem bind_some' {α β : Type} (a : α) (f : α → Option β) : (some a).bind f = f a :=
+  Eq.trans (Option.bind_some a f) rfl
+
+/-- `o` returns `v` (no panic) and `Q v` holds -/
+def Ret {σ : Type} (o : Option σ) (v : σ) (Q : σ → Prop) : Prop := o = some v ∧ Q v
+
+theorem Ret.eq {σ : Type} {o : Option σ} {v : σ} {Q : σ → Prop} (h : Ret o v Q) : o = some v := h.1
+
+theorem Ret.some {σ : Type} {v' v : σ} {Q : σ → Prop} (h : v' = v) (hQ : Q v) : Ret (Option.some v') v Q :=
+  ⟨by rw [h], hQ⟩
+
+theorem Ret.forStep' {σ τ : Type} (P : Nat → σ → Prop) (g : Nat → σ → σ) {lo hi : Nat} {f : Nat → σ → Option σ}
+    {s : σ} {k : σ → Option τ} {v : τ} {Q : τ → Prop} (hlo : lo ≤ hi) (hP : P lo s)
+    (hstep : ∀ i s, lo ≤ i → i < hi → P i s → Ret (f i s) (g i s) (P (i + 1)))
     (hk : P hi ((List.range' lo (hi - lo)).foldl (fun s i => g i s) s) →
-      k ((List.range' lo (hi - lo)).foldl (fun s i => g i s) s) = R) :
-    (forStep lo hi 1 f s).bind k = R := by
+      Ret (k ((List.range' lo (hi - lo)).foldl (fun s i => g i s) s)) v Q) :
+    Ret ((forStep lo hi 1 f s).bind k) v Q := by
   obtain ⟨h1, h2⟩ := forStep_one' P g hlo hP hstep
   rw [h1, Option.bind_some]; exact hk h2
+
+/-- `for i in lo..hi`, the fold written over `List.range (hi - lo)` with `i = lo + d` -/
+theorem Ret.forStepLo {σ τ : Type} (P : Nat → σ → Prop) (g : Nat → σ → σ) {lo hi : Nat} {f : Nat → σ → Option σ}
+    {s : σ} {k : σ → Option τ} {v : τ} {Q : τ → Prop} (hlo : lo ≤ hi) (hP : P lo s)
+    (hstep : ∀ i s, lo ≤ i → i < hi → P i s → Ret (f i s) (g i s) (P (i + 1)))
+    (hk : P hi ((List.range (hi - lo)).foldl (fun s d => g (lo + d) s) s) →
+      Ret (k ((List.range (hi - lo)).foldl (fun s d => g (lo + d) s) s)) v Q) :
+    Ret ((forStep lo hi 1 f s).bind k) v Q := by
+  refine Ret.forStep' P g hlo hP hstep ?_
+  rw [range'_fold]; exact hk
+
+/-- `for i in 0..hi` -/
+theorem Ret.forStep0 {σ τ : Type} (P : Nat → σ → Prop) (g : Nat → σ → σ) {hi : Nat} {f : Nat → σ → Option σ}
+    {s : σ} {k : σ → Option τ} {v : τ} {Q : τ → Prop} (hP : P 0 s)
+    (hstep : ∀ i s, i < hi → P i s → Ret (f i s) (g i s) (P (i + 1)))
+    (hk : P hi ((List.range hi).foldl (fun s i => g i s) s) →
+      Ret (k ((List.range hi).foldl (fun s i => g i s) s)) v Q) :
+    Ret ((forStep 0 hi 1 f s).bind k) v Q := by
+  refine Ret.forStepLo P g (Nat.zero_le _) hP (fun i s _ => hstep i s) ?_
+  simp only [Nat.zero_add, Nat.sub_zero]; exact hk
 
 /-! ### folds of the model -/
 
@@ -134,5 +173,315 @@ theorem inplace_map_eq (h : Nat → Nat) (a : Array Nat) (n : Nat) (hn : a.size 
     simp only [Array.size_ofFn] at hi2
     rw [Array.getElem_ofFn]
     rw [← this, getD_eq_getElem']
+
+/-! ### `initialize_exp_log` -/
+
+theorem cantor_basis_eq : CANTOR_BASIS = (cantorBasis.map (·.toNat)).toArray := by decide
+
+theorem cantor_basis_get (i : Nat) (hi : i < 16) :
+    CANTOR_BASIS[i]? = some ((cantorBasis.getD i 0#16).toNat) := by
+  have : ∀ i : Fin 16, CANTOR_BASIS[i.val]? = some ((cantorBasis.getD i.val 0#16).toNat) := by decide
+  exact this ⟨i, hi⟩
+
+theorem cantor_basis_lt (i : Nat) : (cantorBasis.getD i 0#16).toNat < 65536 := (cantorBasis.getD i 0#16).isLt
+
+theorem replicate_set_zero (n k : Nat) : (Array.replicate n 0).setIfInBounds k 0 = Array.replicate n 0 := by
+  apply Array.ext
+  · simp
+  · intro i h1 h2
+    rw [Array.getElem_setIfInBounds]
+    split
+    · simp
+    · rfl
+
+theorem U16_ofFn {n : Nat} (f : Fin n → Nat) (h : ∀ i, f i < 65536) : U16 (Array.ofFn f) := by
+  intro i
+  by_cases hi : i < n
+  · rw [getD_ofFn f i hi]; exact h _
+  · simp [Array.getD, hi]
+
+theorem exp_log_src : U_initialize_exp_log = some initExpLog := by
+  rw [initExpLog_eq]
+  unfold U_initialize_exp_log
+  have hA1 : (Array.replicate 65536 0 : Array Nat).size = 65536 := Array.size_replicate ..
+  have hA2 : U16 (Array.replicate 65536 0) := U16_replicate _
+  have hA3 : (Array.replicate 65536 0 : Array Nat).setIfInBounds 0 0 = Array.replicate 65536 0 :=
+    replicate_set_zero _ _
+  generalize (Array.replicate 65536 0 : Array Nat) = A at hA1 hA2 hA3 ⊢
+  generalize hR : (exp2Of (lfsrFill 65535 0 1 A) (cantorFill 16 0 A), log1Of (lfsrFill 65535 0 1 A) (cantorFill 16 0 A)) = R
+  apply Ret.eq (Q := fun _ => True)
+  -- LFSR loop
+  refine Ret.forStep' (fun _ s => s.1.size = 65536 ∧ s.2 < 65536 ∧ U16 s.1) lfsrG (by omega)
+    ⟨hA1, by omega, hA2⟩ ?_ ?_
+  · rintro i ⟨e, st⟩ _ hi ⟨h1, h2, h3⟩
+    simp only at h1 h2 h3
+    refine ⟨?_, by simp [lfsrG, h1], lfsrStep_lt h2, U16_set h3 _ _ (by omega)⟩
+    have e1 : st * 2 ^ 1 % 18446744073709551616 = st * 2 := by omega
+    simp only [h1, h2, if_true, Option.bind_some, e1, Array.set!_eq_setIfInBounds, lfsrG, lfsrStep,
+      (by decide : (1 : Nat) < 64)]
+    by_cases hc : st * 2 ≥ 65536
+    · simp only [hc, if_true, Option.bind_some]; rfl
+    · simp only [hc, if_false, Option.bind_some]
+  generalize hF : (List.range' 0 (65535 - 0)).foldl (fun s i => lfsrG i s) (A, 1) = F
+  have hF1 : F.1 = lfsrFill 65535 0 1 A := by rw [← hF]; exact lfsr_fold _ _ _ _
+  generalize lfsrFill 65535 0 1 A = E at hF1 hR
+  clear hF
+  obtain ⟨E', st'⟩ := F
+  simp only at hF1
+  subst hF1
+  rintro ⟨hE1, -, hE2⟩
+  simp only at hE1 hE2
+  simp only [hE1, hA1, (by decide : 0 < 65536), if_true, bind_some', Array.set!_eq_setIfInBounds]
+  -- Cantor loop
+  rw [hA3]
+  refine Ret.forStep' (fun _ a => a.size = 65536 ∧ U16 a) cantorG (by omega)
+    ⟨hA1, hA2⟩ ?_ ?_
+  · intro i a _ hi ⟨h1, h2⟩
+    have hp : 2 ^ i ≤ 2 ^ 15 := Nat.pow_le_pow_right (by omega) (by omega)
+    have hw : 1 * 2 ^ i % 18446744073709551616 = 2 ^ i := by omega
+    have hi64 : i < 64 := by omega
+    simp only [hi64, if_true, bind_some', hw]
+    refine Ret.forStep0 (fun _ a => a.size = 65536 ∧ U16 a) (cantorIn i) ⟨h1, h2⟩ ?_ ?_
+    · intro j b hj ⟨h3, h4⟩
+      have h5 : j + 2 ^ i < 18446744073709551616 := by omega
+      have h6 : j + 2 ^ i < 65536 := by omega
+      simp only [h5, if_true, bind_some', getElem?_getD b j (by omega), cantor_basis_get i hi, h3, h6]
+      exact Ret.some rfl ⟨by rw [cantorIn, Array.size_setIfInBounds, h3],
+        U16_set h4 _ _ (xor_lt (h4 _) (cantor_basis_lt _))⟩
+    · intro h
+      exact Ret.some rfl h
+  rw [cantor_fold]
+  generalize cantorFill (16 - 0) 0 A = L at hR ⊢
+  rintro ⟨hL1, hL2⟩
+  have hX1 : (E'.setIfInBounds 0 65535).size = 65536 := by rw [Array.size_setIfInBounds, hE1]
+  have hX2 : U16 (E'.setIfInBounds 0 65535) := U16_set hE2 _ _ (by omega)
+  rw [show exp2Of E' L = (exp1Of E' L).setIfInBounds 65535 ((exp1Of E' L).getD 0 0) from rfl,
+    show exp1Of E' L = (List.range 65536).foldl (fun e i => e.setIfInBounds ((log1Of E' L).getD i 0) i)
+      (E'.setIfInBounds 0 65535) from rfl] at hR
+  have hL1' : log1Of E' L = Array.ofFn (n := 65536) fun i => (E'.setIfInBounds 0 65535).getD (L.getD i.val 0) 0 := rfl
+  generalize E'.setIfInBounds 0 65535 = X at hX1 hX2 hR hL1' ⊢
+  -- log[i] = exp[log[i]]
+  refine Ret.forStep0 (fun i l => l.size = 65536 ∧ ∀ j, i ≤ j → l.getD j 0 < 65536)
+    (fun i l => l.setIfInBounds i (X.getD (l.getD i 0) 0)) ⟨hL1, fun j _ => hL2 j⟩ ?_ ?_
+  · intro i l hi ⟨h1, h2⟩
+    simp only [getElem?_getD l i (by omega), bind_some', getElem?_getD X _ (by rw [hX1]; exact h2 i (Nat.le_refl _)),
+      h1, hi, if_true]
+    refine Ret.some rfl ⟨by rw [Array.size_setIfInBounds, h1], fun j hj => ?_⟩
+    rw [getD_setIfInBounds, if_neg (by omega)]
+    exact h2 j (by omega)
+  rw [inplace_map_eq (fun v => X.getD v 0) L 65536 hL1, ← hL1']
+  have hM1 : (log1Of E' L).size = 65536 := by rw [hL1', Array.size_ofFn]
+  have hM2 : U16 (log1Of E' L) := by rw [hL1']; exact U16_ofFn _ (fun i => hX2 _)
+  generalize log1Of E' L = M at hM1 hM2 hR ⊢
+  intro _
+  -- exp[log[i]] = i
+  refine Ret.forStep0 (fun _ e => e.size = 65536) (fun i e => e.setIfInBounds (M.getD i 0) i) hX1 ?_ ?_
+  · intro i e hi h1
+    simp only [getElem?_getD M i (by omega), bind_some', h1, hM2 i, if_true, Nat.mod_eq_of_lt hi]
+    exact Ret.some rfl (by rw [Array.size_setIfInBounds, h1])
+  generalize (List.range 65536).foldl (fun e i => e.setIfInBounds (M.getD i 0) i) X = Y at hR ⊢
+  intro hY
+  simp only [getElem?_getD Y 0 (by omega), bind_some', hY, (by decide : 65535 < 65536), if_true]
+  exact Ret.some hR trivial
+
+/-! ### `add_mod`, `mul`, the `while` loop of `initialize_skew` -/
+
+theorem add_mod_src {x y : Nat} (hx : x < 65536) (hy : y < 65536) : U_add_mod x y = some (addMod x y) := by
+  unfold U_add_mod addMod
+  have h1 : x + y < 4294967296 := by omega
+  have h2 : x + y + (x + y) / 65536 < 4294967296 := by omega
+  simp only [(by decide : 2 ^ 16 = 65536), h1, h2, if_true, Option.bind_some]
+
+theorem tmul_lt {exp log : Array Nat} (he : U16 exp) (x m : Nat) : tmul exp log x m < 65536 := by
+  unfold tmul
+  split
+  · omega
+  · exact he _
+
+theorem mul_src {exp log : Array Nat} (hE : exp.size = 65536) (hL : log.size = 65536) (hl : U16 log)
+    {x m : Nat} (hx : x < 65536) (hm : m < 65536) : U_mul x m exp log = some (tmul exp log x m) := by
+  unfold U_mul tmul
+  by_cases h0 : x = 0
+  · simp only [h0, if_true]
+  · simp only [h0, if_false, getElem?_getD log x (by omega), Option.bind_some, add_mod_src (hl x) hm,
+      getElem?_getD exp _ (by rw [hE]; exact (addMod_spec _ _ (hl x) hm).1)]
+
+/-- the `while j < s { skew[j + s] = skew[j] ^ temp[i]; j += step }` loop of the source against `skewInner` -/
+theorem whileSt_skewInner {step s t : Nat} (Inv : Nat → Array Nat → Prop)
+    {c : Nat × Array Nat → Bool} {b : Nat × Array Nat → Option (Nat × Array Nat)}
+    (hstep : 0 < step) (hc : ∀ st, c st = decide (st.1 < s))
+    (hb : ∀ j a, Inv j a → j < s → Ret (b (j, a))
+      (j + step, a.setIfInBounds (j + s) (Nat.xor (a.getD j 0) t)) (fun st => Inv st.1 st.2)) :
+    ∀ (n F F' j : Nat) (a : Array Nat), s ≤ j + n * step → n < F → n ≤ F' → Inv j a →
+      ∃ j', whileSt F c b (j, a) = some (j', skewInner step s t F' j a) ∧ Inv j' (skewInner step s t F' j a)
+  | 0, F, F', j, a, hn, hF, _, hI => by
+    have hj : ¬ j < s := by omega
+    refine ⟨j, ?_, ?_⟩
+    · cases F with
+      | zero => omega
+      | succ F => simp only [whileSt, hc, hj, decide_false, Bool.false_eq_true, if_false]
+                  cases F' <;> simp [skewInner, hj]
+    · cases F' <;> simp [skewInner, hj, hI]
+  | n + 1, F, F', j, a, hn, hF, hF', hI => by
+    cases F with
+    | zero => omega
+    | succ F =>
+    cases F' with
+    | zero => omega
+    | succ F' =>
+    by_cases hj : j < s
+    · obtain ⟨e1, e2⟩ := hb j a hI hj
+      obtain ⟨j', e3, e4⟩ := whileSt_skewInner Inv hstep hc hb n F F' (j + step) _
+        (by rw [Nat.add_mul] at hn; omega) (by omega) (by omega) e2
+      refine ⟨j', ?_, ?_⟩
+      · simp only [whileSt, hc, hj, decide_true, if_true, e1, Option.bind_some, e3, skewInner]
+      · simp only [skewInner, hj, if_true]; exact e4
+    · refine ⟨j, ?_, ?_⟩
+      · simp only [whileSt, hc, hj, decide_false, Bool.false_eq_true, if_false, skewInner]
+      · simp only [skewInner, hj, if_false]; exact hI
+
+theorem Ret.whileSkew {τ : Type} {step s t : Nat} (Inv : Nat → Array Nat → Prop) {F F' : Nat}
+    {c : Nat × Array Nat → Bool} {b : Nat × Array Nat → Option (Nat × Array Nat)} {j : Nat} {a : Array Nat}
+    {k : Nat × Array Nat → Option τ} {v : τ} {Q : τ → Prop}
+    (hstep : 0 < step) (hF : s < F) (hF' : s ≤ F') (hc : ∀ st, c st = decide (st.1 < s)) (hI : Inv j a)
+    (hb : ∀ j a, Inv j a → j < s → Ret (b (j, a))
+      (j + step, a.setIfInBounds (j + s) (Nat.xor (a.getD j 0) t)) (fun st => Inv st.1 st.2))
+    (hk : ∀ j', Inv j' (skewInner step s t F' j a) → Ret (k (j', skewInner step s t F' j a)) v Q) :
+    Ret ((whileSt F c b (j, a)).bind k) v Q := by
+  obtain ⟨j', e1, e2⟩ := whileSt_skewInner Inv hstep hc hb s F F' j a
+    (by have := Nat.le_mul_of_pos_right s hstep; omega) hF hF' hI
+  rw [e1, Option.bind_some]; exact hk j' e2
+
+/-! ### `initialize_skew` -/
+
+def skewG (m : Nat) (tp : Array Nat) (i : Nat) (a : Array Nat) : Array Nat :=
+  skewInner (2 ^ (m + 1)) (2 ^ (i + 1)) (tp.getD i 0) 65536 (2 ^ m - 1) a
+
+theorem skewLevel_fold (m : Nat) (tp sk : Array Nat) :
+    (List.range (15 - m)).foldl (fun s d => skewG m tp (m + d) s) (sk.setIfInBounds (2 ^ m - 1) 0) =
+      skewLevel m tp sk := rfl
+
+def tempG (e l : Array Nat) (tmNew : Nat) (i : Nat) (t : Array Nat) : Array Nat :=
+  t.setIfInBounds i (tmul e l (t.getD i 0) (addMod (l.getD (Nat.xor (t.getD i 0) 1) 0) tmNew))
+
+def tmNewOf (e l : Array Nat) (m : Nat) (tp : Array Nat) : Nat :=
+  65535 - l.getD (tmul e l (tp.getD m 0) (l.getD (Nat.xor (tp.getD m 0) 1) 0)) 0
+
+theorem tempNext_fold (e l : Array Nat) (m : Nat) (tp : Array Nat) :
+    (List.range (15 - (m + 1))).foldl (fun s d => tempG e l (tmNewOf e l m tp) (m + 1 + d) s)
+      (tp.setIfInBounds m (tmNewOf e l m tp)) = tempNext e l m tp := by
+  rw [show 15 - (m + 1) = 14 - m by omega]; rfl
+
+theorem U16_lt_le {a : Array Nat} (h : U16 a) (i : Nat) : a.getD i 0 ≤ 65535 := by have := h i; omega
+
+theorem getElem?_lt {a : Array Nat} (hs : a.size = 65536) {i : Nat} (hi : i < 65536) :
+    a[i]? = some (a.getD i 0) := getElem?_getD a i (by omega)
+
+theorem skew_src (exp log : Array Nat) (hE : exp.size = 65536) (hL : log.size = 65536)
+    (he : U16 exp) (hl : U16 log) :
+    U_initialize_skew exp log = some (initSkew exp log) := by
+  unfold U_initialize_skew initSkew
+  have hS1 : (Array.replicate 65535 0 : Array Nat).size = 65535 := Array.size_replicate ..
+  have hS2 : U16 (Array.replicate 65535 0) := U16_replicate _
+  generalize (Array.replicate 65535 0 : Array Nat) = S at hS1 hS2 ⊢
+  apply Ret.eq (Q := fun _ => True)
+  -- temp[i - 1] = 1 << i
+  refine Ret.forStepLo (fun _ t => t.size = 15) (fun i t => t.setIfInBounds (i - 1) (2 ^ i)) (by omega)
+    (Array.size_replicate ..) ?_ ?_
+  · intro i t h1 hi ht
+    have hp : 2 ^ i ≤ 2 ^ 15 := Nat.pow_le_pow_right (by omega) (by omega)
+    have e1 : 1 * 2 ^ i % 65536 = 2 ^ i := by omega
+    have c1 : i - 1 < 15 := by omega
+    have c2 : i < 16 := hi
+    simp only [h1, c2, e1, ht, c1, if_true, bind_some', Array.set!_eq_setIfInBounds]
+    exact Ret.some rfl (by rw [Array.size_setIfInBounds, ht])
+  have hT : (List.range (16 - 1)).foldl (fun s d => s.setIfInBounds (1 + d - 1) (2 ^ (1 + d))) (Array.replicate 15 0)
+      = Array.ofFn (n := 15) fun i => 2 ^ (i.val + 1) := by decide
+  rw [hT]
+  have hT2 : U16 (Array.ofFn (n := 15) fun i => 2 ^ (i.val + 1)) := U16_ofFn _ (by decide)
+  generalize (Array.ofFn (n := 15) fun i => 2 ^ (i.val + 1)) = T at hT2 ⊢
+  intro hT1
+  simp only []
+  -- for m in 0..15
+  refine Ret.forStep0 (fun _ st => st.1.size = 65535 ∧ U16 st.1 ∧ st.2.size = 15 ∧ U16 st.2)
+    (skewOuterStep exp log) ⟨hS1, hS2, hT1, hT2⟩ ?_ ?_
+  · rintro m ⟨sk, tp⟩ hm ⟨h1, h2, h3, h4⟩
+    simp only at h1 h2 h3 h4
+    rw [skewOuterStep_eq]
+    have hp : 2 ^ m ≤ 2 ^ 14 := Nat.pow_le_pow_right (by omega) (by omega)
+    have hp1 : 2 ^ (m + 1) = 2 * 2 ^ m := pow_succ2 m
+    have e1 : 1 * 2 ^ (m + 1) % 18446744073709551616 = 2 ^ (m + 1) := by omega
+    have e2 : 1 * 2 ^ m % 18446744073709551616 = 2 ^ m := by omega
+    have e3 : 1 ≤ 2 ^ m := Nat.one_le_two_pow
+    have c1 : m + 1 < 18446744073709551616 := by omega
+    have c2 : m + 1 < 64 := by omega
+    have c3 : m < 64 := by omega
+    have c4 : 2 ^ m - 1 < 65535 := by omega
+    simp only [c1, c2, c3, e1, e2, e3, h1, c4, if_true, bind_some', Array.set!_eq_setIfInBounds]
+    -- for i in m..15 { while j < s { … } }
+    refine Ret.forStepLo (fun _ a => a.size = 65535 ∧ U16 a) (skewG m tp) (by omega)
+      ⟨by rw [Array.size_setIfInBounds, h1], U16_set h2 _ _ (by omega)⟩ ?_ ?_
+    · intro i a hmi hi ⟨h5, h6⟩
+      have hq : 2 ^ (i + 1) ≤ 2 ^ 15 := Nat.pow_le_pow_right (by omega) (by omega)
+      have hd : 2 ^ (m + 1) ∣ 2 ^ (i + 1) := Nat.pow_dvd_pow 2 (by omega)
+      have c5 : i + 1 < 18446744073709551616 := by omega
+      have c6 : i + 1 < 64 := by omega
+      have e4 : 1 * 2 ^ (i + 1) % 18446744073709551616 = 2 ^ (i + 1) := by omega
+      simp only [c5, c6, e4, if_true, bind_some']
+      refine Ret.whileSkew (step := 2 ^ (m + 1)) (s := 2 ^ (i + 1)) (t := tp.getD i 0) (F' := 65536)
+        (fun j a => a.size = 65535 ∧ U16 a ∧ 2 ^ (m + 1) ∣ j + 1 + 2 ^ m) (by omega) (by omega) (by omega)
+        (fun _ => rfl) ⟨h5, h6, by rw [show 2 ^ m - 1 + 1 + 2 ^ m = 2 ^ (m + 1) by omega]⟩ ?_ ?_
+      · intro j b ⟨h7, h8, h9⟩ hj
+        have h10 : j + 1 + 2 ^ m ≤ 2 ^ (i + 1) := Nat.le_of_lt_add_of_dvd (by omega) h9 hd
+        have c7 : j + 2 ^ (i + 1) < 18446744073709551616 := by omega
+        have c8 : j + 2 ^ (i + 1) < 65535 := by omega
+        have c9 : j + 2 ^ (m + 1) < 18446744073709551616 := by omega
+        simp only [c7, c8, c9, h7, if_true, bind_some', getElem?_getD b j (by omega), getElem?_getD tp i (by omega)]
+        refine Ret.some rfl ⟨by rw [Array.size_setIfInBounds, h7], U16_set h8 _ _ (xor_lt (h8 _) (h4 _)), ?_⟩
+        rw [show j + 2 ^ (m + 1) + 1 + 2 ^ m = (j + 1 + 2 ^ m) + 2 ^ (m + 1) by omega]
+        exact Nat.dvd_add h9 (Nat.dvd_refl _)
+      · intro j' ⟨h7, h8, _⟩
+        exact Ret.some rfl ⟨h7, h8⟩
+    rw [skewLevel_fold]
+    intro ⟨h5, h6⟩
+    -- temp[m] = GF_MODULUS - log[mul(temp[m], log[temp[m] ^ 1])]
+    have c10 : tp.getD m 0 ^^^ 1 < 65536 := xor_lt (h4 _) (by omega)
+    have c11 : m < 15 := hm
+    have c14 : tmul exp log (tp.getD m 0) (log.getD (tp.getD m 0 ^^^ 1) 0) < 65536 := tmul_lt he _ _
+    simp only [getElem?_getD tp m (by omega), bind_some', getElem?_lt hL c10,
+      mul_src hE hL hl (h4 m) (hl (tp.getD m 0 ^^^ 1)), getElem?_lt hL c14, U16_lt_le hl, h3, c11, if_true]
+    rw [show (65535 - log.getD (tmul exp log (tp.getD m 0) (log.getD (tp.getD m 0 ^^^ 1) 0)) 0) =
+      tmNewOf exp log m tp from rfl]
+    refine Ret.forStepLo (fun _ t => t.size = 15 ∧ U16 t ∧ t.getD m 0 = tmNewOf exp log m tp)
+      (tempG exp log (tmNewOf exp log m tp)) (by omega)
+      ⟨by rw [Array.size_setIfInBounds, h3], U16_set h4 _ _ (by unfold tmNewOf; omega),
+        by rw [getD_setIfInBounds, if_pos ⟨rfl, by omega⟩]⟩ ?_ ?_
+    · intro i t hmi hi ⟨h7, h8, h9⟩
+      have c12 : t.getD i 0 ^^^ 1 < 65536 := xor_lt (h8 _) (by omega)
+      have c13 : tmNewOf exp log m tp < 65536 := by unfold tmNewOf; omega
+      simp only [getElem?_getD t i (by omega), getElem?_getD t m (by omega), bind_some', h9,
+        getElem?_lt hL c12, add_mod_src (hl (t.getD i 0 ^^^ 1)) c13,
+        mul_src hE hL hl (h8 i) (addMod_spec _ _ (hl (t.getD i 0 ^^^ 1)) c13).1, h7, hi, if_true]
+      refine Ret.some rfl ⟨by rw [tempG, Array.size_setIfInBounds, h7], U16_set h8 _ _ (tmul_lt he _ _), ?_⟩
+      rw [tempG, getD_setIfInBounds, if_neg (by omega)]; exact h9
+    rw [tempNext_fold]
+    intro ⟨h7, h8, _⟩
+    exact Ret.some rfl ⟨h5, h6, h7, h8⟩
+  generalize (List.range 15).foldl (fun s i => skewOuterStep exp log i s) (S, T) = Y
+  obtain ⟨Y1, Y2⟩ := Y
+  simp only []
+  rintro ⟨hY1, hY2, -, -⟩
+  -- skew[i] = log[skew[i]]
+  refine Ret.forStep0 (fun i a => a.size = 65535 ∧ ∀ j, i ≤ j → a.getD j 0 < 65536)
+    (fun i a => a.setIfInBounds i (log.getD (a.getD i 0) 0)) ⟨hY1, fun j _ => hY2 j⟩ ?_ ?_
+  · intro i a hi ⟨h1, h2⟩
+    simp only [getElem?_getD a i (by omega), bind_some', getElem?_lt hL (h2 i (Nat.le_refl _)), h1, hi, if_true,
+      Array.set!_eq_setIfInBounds]
+    refine Ret.some rfl ⟨by rw [Array.size_setIfInBounds, h1], fun j hj => ?_⟩
+    rw [getD_setIfInBounds, if_neg (by omega)]
+    exact h2 j (by omega)
+  rw [inplace_map_eq (fun v => log.getD v 0) Y1 65535 hY1]
+  intro _
+  exact Ret.some rfl trivial
 
 end RS.SrcT
